@@ -3,7 +3,7 @@
 # Confirms a sub-agent's seeded change in its scratch worktree /tmp/seed/<ID> (never in /repo):
 #   - the patch applies to a clean checkout, the crate builds, the pinned suite passes with it,
 #   - the demonstration fails with it and passes without it.
-id="$1"; wt=/tmp/seed/$id; out=/tmp/seed/$id.out
+id="$1"; root=${SEED_ROOT:-/tmp/seed}; wt=$root/$id; out=$root/$id.out
 cd "$wt" || exit 2
 git checkout -q -- . ; git clean -fdq -- tests examples src 2>/dev/null
 git apply "$out/patch.diff" || { echo "CONFIRM $id: patch does not apply"; exit 1; }
